@@ -331,7 +331,89 @@ def threads(ctx, scs, impl, nthreads):
     ctx.extra['concurrent_runs'] = runs
 
 
+def choreographed_threads(ctx, rounds):
+    """two real threads forced (with threading.Event) through the interleavings sampling rarely hits: thread B enters
+    and leaves run() while thread A is inside a run() nested in another run(), in every order of the four end points.
+    From the text: each thread sees its own simulation only, the enclosing simulation of A continues undisturbed, and
+    afterwards neither thread sees a simulation."""
+    import itertools
+    import usim
+    for order in list(itertools.permutations(['A-inner-ends', 'B-ends']))[:2] * rounds:
+        ev = {k: threading.Event() for k in ('A-in-nested', 'B-entered', 'A-inner-ended', 'B-ended')}
+        obs = {'A': [], 'B': []}
+        case = {'choreography': list(order)}
+
+        def wait(e):
+            if not ev[e].wait(20):
+                raise RuntimeError('choreography stalled at %s' % e)
+
+        def thread_a():
+            async def inner():
+                await (usim.time + 1)
+                ev['A-in-nested'].set()
+                wait('B-entered')
+                if order[0] == 'B-ends':
+                    wait('B-ended')
+                obs['A'].append(('inner', usim.time.now))
+
+            async def outer():
+                await (usim.time + 2)
+                usim.run(inner(), start=100)
+                ev['A-inner-ended'].set()
+                if order[0] == 'A-inner-ends':
+                    wait('B-ended')
+                obs['A'].append(('outer-after-inner', usim.time.now))
+                await (usim.time + 3)
+                obs['A'].append(('outer-end', usim.time.now))
+            try:
+                usim.run(outer(), start=10)
+                try:
+                    obs['A'].append(('after', usim.time.now))
+                except RuntimeError:
+                    obs['A'].append(('after', 'no simulation'))
+            except BaseException as e:   # noqa
+                obs['A'].append(('failed', repr(e)))
+            finally:
+                for e in ev.values():
+                    e.set()
+
+        def thread_b():
+            async def act():
+                await (usim.time + 1)
+                ev['B-entered'].set()
+                if order[0] == 'A-inner-ends':
+                    wait('A-inner-ended')
+                obs['B'].append(('act', usim.time.now))
+                await (usim.time + 4)
+                obs['B'].append(('act-end', usim.time.now))
+            try:
+                wait('A-in-nested')
+                usim.run(act(), start=50)
+                try:
+                    obs['B'].append(('after', usim.time.now))
+                except RuntimeError:
+                    obs['B'].append(('after', 'no simulation'))
+            except BaseException as e:   # noqa
+                obs['B'].append(('failed', repr(e)))
+            finally:
+                ev['B-ended'].set()
+                ev['B-entered'].set()
+        ta, tb = threading.Thread(target=thread_a), threading.Thread(target=thread_b)
+        ta.start()
+        tb.start()
+        ta.join(60)
+        tb.join(60)
+        ctx.count(case, nontrivial=True)
+        ctx.bump('family:choreographed-threads')
+        want = {'A': [('inner', 101), ('outer-after-inner', 12), ('outer-end', 15), ('after', 'no simulation')],
+                'B': [('act', 51), ('act-end', 55), ('after', 'no simulation')]}
+        if obs != want:
+            ctx.fail(case, 'two threads, one of them in a nested run(): observed %r, expected %r' % (obs, want),
+                     family='choreographed-threads')
+
+
 def run(ctx):
+    choreographed_threads(ctx, ctx.n(3, 25))
     scs, impl = machine_prop.run(ctx, [('mixed', 100, 1500, {}), ('trees', 60, 1000, {}), ('timers', 60, 1000, {'till_p': 0.8})],
                                  ['C15', 'till'])
     cases = run_programs(ctx, ctx.n(150, 3000))
